@@ -67,7 +67,7 @@ N = {'quick': 3200, 'thorough': 160000}
 # The constants are >= 100 x the ratios of the valid files (A = 0), and above what dwarf_phantombytes.elf needs:
 SIZE_FLOOR = 65536
 LINE_A = 0
-LINE_B = {'iter_sections': 80}    # 80 * 64 KiB = 5 242 880 line events (368 x the small-file maximum of 14 221)
+LINE_B = {'iter_sections': 80, 'iter_sections(type)': 80, 'get_section_by_name(absent)': 80}    # 80 * 64 KiB = 5 242 880 line events (368 x the small-file maximum of 14 221)
 LINE_B_DEFAULT = 20               # 20 * 64 KiB = 1 310 720 line events (103 x the small-file maximum of 12 705)
 BYTE_A, BYTE_B = 0, 256           # 256 * 64 KiB = 16 MiB, for bytes delivered per step and for a single read() request
 
@@ -205,7 +205,7 @@ def byte_budget(n):
 class Battery:
     """Runs the fixed enumeration battery on an opened ELFFile; collects per-step work."""
 
-    STEPS = ('header', 'num_sections', 'iter_sections', 'num_segments', 'iter_segments', 'num_symbols',
+    STEPS = ('header', 'num_sections', 'iter_sections', 'iter_sections(type)', 'get_section_by_name(absent)', 'num_segments', 'iter_segments', 'iter_segments(type)', 'num_symbols',
              'hash.get_number_of_symbols', 'iter_tags', 'dynseg.num_symbols', 'iter_notes', 'num_versions')
     # Steps that are run under the same budgets but only COUNTED (counters extra.<step>.<outcome>), never reported:
     # the property statement does not list version entries among the enumerations, although its anchors name the
@@ -271,9 +271,20 @@ class Battery:
         self._run('num_sections', ef.num_sections)
         secs = []
         self._run('iter_sections', lambda: self._drain(ef.iter_sections, secs))
+        # the same enumerations through their other entry points: the type filter and the look-up of a name that no section bears (a full walk)
+        # (on every input that uses the extended-numbering escape and on a third of the others: each is one more walk under the tracer)
+        try:
+            extra = ef.header['e_shnum'] == 0 or ef.header['e_phnum'] == 0xffff or (self.nbytes + len(secs)) % 3 == 0
+        except Exception:  # noqa
+            extra = True
+        if extra:
+            self._run('iter_sections(type)', lambda: self._drain(lambda: ef.iter_sections(type='SHT_ARM_EXIDX'), []))
+            self._run('get_section_by_name(absent)', lambda: ef.get_section_by_name('.no-such-section'))
         self._run('num_segments', ef.num_segments)
         segs = []
         self._run('iter_segments', lambda: self._drain(ef.iter_segments, segs))
+        if extra:
+            self._run('iter_segments(type)', lambda: self._drain(lambda: ef.iter_segments(type='PT_LOAD'), []))
         for s in secs:
             if hasattr(s, 'num_symbols'):
                 self._run('num_symbols', s.num_symbols)
